@@ -1135,7 +1135,7 @@ pub fn cli(args: &[String]) {
                 }
             }
         }
-        // the recursive-start witnesses of finding FC23a (case lines)
+        // the recursive-start witnesses of finding F28 (case lines)
         Some("witness") => {
             std::panic::set_hook(Box::new(|_| {}));
             for l in witnesses() {
